@@ -193,14 +193,22 @@ def run(chk, model_ok):
         # depth 2 sampled
         d2 = exhaustive_calls(2)
         trees = trees + rng.sample(d2, 600)
+    else:
+        # depth 3 sampled: a random depth-2 tree under each wrapper shape
+        d2 = trees
+        vs = [None, ["int", 0], ["int", 3], ["int", -1], ["str", "bad"], ["bool", False]]
+        d3 = [{"v": rng.choice(vs), "b": {"items": [[rng.choice(d2), rng.random() < 0.5]] +
+                                                  ([[rng.choice(d2), rng.random() < 0.5]] if rng.random() < 0.3 else []),
+                                        "end": rng.choice(["ret", "raise"])}} for _ in range(4000)]
+        trees = trees + d3
     for lvl in LEVELS:
         for t in trees:
             cases.append({"pre": [["set", "level", ["name", lvl]]], "b": [["call", t]], "fam": "calltree"})
     # (b) random blocks (context managers interleaved with calls and setters)
-    nblocks = 6000 if thorough else 1500
+    nblocks = 20000 if thorough else 1500
     for _ in range(nblocks):
         allow_set = rng.random() < 0.4
-        cases.append({"pre": prelude(rng), "b": rand_block(rng, 3, allow_set), "fam": "block"})
+        cases.append({"pre": prelude(rng), "b": rand_block(rng, 4 if thorough and rng.random() < 0.3 else 3, allow_set), "fam": "block"})
     # corpus first
     corpus = [
         {"pre": [], "b": [["call", {"v": ["str", "bad"], "b": {"items": [], "end": "ret"}}],
